@@ -362,7 +362,7 @@ def check_c13() -> int:
         multi = multi[:120 if tier == "quick" else 1500]
         jobs += [("snapshot", multi[i:i + 10], 2 * 10 ** 6 + i) for i in range(0, len(multi), 10)]
         ctx = multiprocessing.get_context("fork")
-        with ctx.Pool(16) as pool:
+        with ctx.Pool(16, initializer=common.limit_worker) as pool:
             cases = [c for part in pool.map(_rt_worker, jobs) for c in part]
         # the same round trip in a child interpreter under a non-UTF-8 locale (configuration: the file
         # must not depend on the locale's preferred encoding)
@@ -523,7 +523,7 @@ def check_c14() -> int:
             items.append(("missing", None, null))
         jobs = [(items[i:i + 150], i) for i in range(0, len(items), 150)]
         ctx = multiprocessing.get_context("fork")
-        with ctx.Pool(16) as pool:
+        with ctx.Pool(16, initializer=common.limit_worker) as pool:
             cases = [c for part in pool.map(_load_worker, jobs) for c in part]
         rep.cov["evaluations"] = len(cases)
         rep.cov["distinct_nontrivial"] = len({c["content_preview"] for c in cases})
